@@ -39,6 +39,7 @@ func (c *Ctx) AuditVariants(verifDir string) {
 				}
 			}()
 			c.Prop.Run(c2)
+			c2.RunDeps(verifDir)
 		}()
 		var hits []string
 		for _, o := range c2.unlisted(verifDir) {
@@ -58,6 +59,40 @@ func (c *Ctx) AuditVariants(verifDir string) {
 		c2 = nil
 		runtime.GC()
 		debug.FreeOSMemory()
+	}
+}
+
+// RunDeps re-runs, on the same loaded program, the rules of the properties this one rests on (Prop.Deps).
+// An obligation of such a property that fails (and is not one of that property's known findings, which its
+// own check reports) is a violation of this property too: it is added under "<id>/rests-on/<rule>".
+func (c *Ctx) RunDeps(verifDir string) {
+	for _, d := range c.Prop.Deps {
+		p := Registry[d]
+		if p == nil {
+			c.Add(&Obligation{Rule: c.Prop.ID + "/rests-on", Construct: d, Status: Undecided, Detail: "unknown property " + d})
+			continue
+		}
+		c2 := NewCtx(p, "quick")
+		c2.RepoDir = c.RepoDir
+		c2.Overlay = c.Overlay
+		c2.progs = c.progs // the loaded, type-checked program is shared; engines are not (options differ)
+		func() {
+			defer func() {
+				if r := recover(); r != nil {
+					c2.Add(&Obligation{Rule: d + "/analyser", Construct: "panic", Status: Undecided, Detail: fmt.Sprintf("analyser panic: %v\n%s", r, debug.Stack())})
+				}
+			}()
+			p.Run(c2)
+		}()
+		bad := c2.unlisted(verifDir)
+		for _, o := range bad {
+			c.Add(&Obligation{Rule: c.Prop.ID + "/rests-on/" + o.Rule, Construct: o.Construct, Status: o.Status, Where: o.Where, Detail: o.Detail})
+		}
+		if len(bad) == 0 {
+			c.ok(c.Prop.ID+"/rests-on", d, "", fmt.Sprintf("the %d obligations of %s (%s) hold or are findings reported by its own check", len(c2.Obls), d, p.Title))
+		}
+		c.Stats["entries_interpreted"] += c2.Stats["entries_interpreted"]
+		c.Stats["events"] += c2.Stats["events"]
 	}
 }
 
@@ -106,6 +141,10 @@ func seedsFor(verifDir, id string) []string {
 
 // overlayFromPatch applies a stored patch to copies of the files it touches (in a scratch directory that is
 // removed again) and returns the patched contents keyed by their path in the repository.
+func OverlayFromPatch(repo, patch string) (map[string][]byte, []string, error) {
+	return overlayFromPatch(repo, patch)
+}
+
 func overlayFromPatch(repo, patch string) (map[string][]byte, []string, error) {
 	bz, err := os.ReadFile(patch)
 	if err != nil {
